@@ -17,6 +17,13 @@ macro "jeq_start" ids:(ppSpace colGt ident)+ : tactic =>
     simp only [ofC_ZMAX, ofC_SHELLNUM, ofC_SHELLNUM_K, ofC_SHELLNUM_A, ofC_TRANSNUM, ofC_LINENUM, ofC_AUGERNUM, ofC_RE2, ofC_MEC2, ofC_AVOGNUM, ofC_KEV2ANGST, ofC_R_E, ofC_AtomicWeight_arr, ofC_ElementDensity_arr, ofC_EdgeEnergy_arr, ofC_AtomicLevelWidth_arr, ofC_LineEnergy_arr, ofC_FluorYield_arr, ofC_JumpFactor_arr, ofC_CosKron_arr, ofC_RadRate_arr, ofC_xrf_cross_sections_constants_full, ofC_xrf_cross_sections_constants_auger_only, ofC_NE_Photo_arr, ofC_E_Photo_arr, ofC_CS_Photo_arr, ofC_CS_Photo_arr2, ofC_NE_Rayl_arr, ofC_E_Rayl_arr, ofC_CS_Rayl_arr, ofC_CS_Rayl_arr2, ofC_NE_Compt_arr, ofC_E_Compt_arr, ofC_CS_Compt_arr, ofC_CS_Compt_arr2, ofC_NE_Energy_arr, ofC_E_Energy_arr, ofC_CS_Energy_arr, ofC_CS_Energy_arr2, ofC_Nq_Rayl_arr, ofC_q_Rayl_arr, ofC_FF_Rayl_arr, ofC_FF_Rayl_arr2, ofC_Nq_Compt_arr, ofC_q_Compt_arr, ofC_SF_Compt_arr, ofC_SF_Compt_arr2, ofC_NE_Fi_arr, ofC_E_Fi_arr, ofC_Fi_arr, ofC_Fi_arr2, ofC_NE_Fii_arr, ofC_E_Fii_arr, ofC_Fii_arr, ofC_Fii_arr2, ofC_NE_Photo_Total_Kissel_arr, ofC_Electron_Config_Kissel_arr, ofC_NE_Photo_Partial_Kissel_arr, ofC_E_Photo_Partial_Kissel_arr, ofC_Photo_Partial_Kissel_arr, ofC_Photo_Partial_Kissel_arr2, ofC_NShells_ComptonProfiles_arr, ofC_Npz_ComptonProfiles_arr, ofC_UOCCUP_ComptonProfiles_arr, ofC_pz_ComptonProfiles_arr, ofC_Total_ComptonProfiles_arr, ofC_Total_ComptonProfiles_arr2, ofC_Partial_ComptonProfiles_arr, ofC_Partial_ComptonProfiles_arr2, ofC_Auger_Yields_arr, ofC_Auger_Rates_arr, Hdr.ZMAX, Hdr.SHELLNUM, Hdr.SHELLNUM_K, Hdr.SHELLNUM_A, Hdr.TRANSNUM, Hdr.LINENUM, Hdr.AUGERNUM,
       Hdr.RE2, Hdr.MEC2, Hdr.AVOGNUM, Hdr.KEV2ANGST, Hdr.R_E, setErr_notFull (by assumption), inI32, INT_MIN, INT_MAX] at *))
 
+/-- the same for a statement about the Java side alone: unfold, instantiate the Java tables by the C tables, normalise the `int` ranges -/
+macro "jeq_startJ" ids:(ppSpace colGt ident)+ : tactic =>
+  `(tactic| (
+    unfold $ids*
+    simp only [ofC_ZMAX, ofC_SHELLNUM, ofC_SHELLNUM_K, ofC_SHELLNUM_A, ofC_TRANSNUM, ofC_LINENUM, ofC_AUGERNUM, ofC_RE2, ofC_MEC2, ofC_AVOGNUM, ofC_KEV2ANGST, ofC_R_E, ofC_AtomicWeight_arr, ofC_ElementDensity_arr, ofC_EdgeEnergy_arr, ofC_AtomicLevelWidth_arr, ofC_LineEnergy_arr, ofC_FluorYield_arr, ofC_JumpFactor_arr, ofC_CosKron_arr, ofC_RadRate_arr, ofC_xrf_cross_sections_constants_full, ofC_xrf_cross_sections_constants_auger_only, ofC_NE_Photo_arr, ofC_E_Photo_arr, ofC_CS_Photo_arr, ofC_CS_Photo_arr2, ofC_NE_Rayl_arr, ofC_E_Rayl_arr, ofC_CS_Rayl_arr, ofC_CS_Rayl_arr2, ofC_NE_Compt_arr, ofC_E_Compt_arr, ofC_CS_Compt_arr, ofC_CS_Compt_arr2, ofC_NE_Energy_arr, ofC_E_Energy_arr, ofC_CS_Energy_arr, ofC_CS_Energy_arr2, ofC_Nq_Rayl_arr, ofC_q_Rayl_arr, ofC_FF_Rayl_arr, ofC_FF_Rayl_arr2, ofC_Nq_Compt_arr, ofC_q_Compt_arr, ofC_SF_Compt_arr, ofC_SF_Compt_arr2, ofC_NE_Fi_arr, ofC_E_Fi_arr, ofC_Fi_arr, ofC_Fi_arr2, ofC_NE_Fii_arr, ofC_E_Fii_arr, ofC_Fii_arr, ofC_Fii_arr2, ofC_NE_Photo_Total_Kissel_arr, ofC_Electron_Config_Kissel_arr, ofC_NE_Photo_Partial_Kissel_arr, ofC_E_Photo_Partial_Kissel_arr, ofC_Photo_Partial_Kissel_arr, ofC_Photo_Partial_Kissel_arr2, ofC_NShells_ComptonProfiles_arr, ofC_Npz_ComptonProfiles_arr, ofC_UOCCUP_ComptonProfiles_arr, ofC_pz_ComptonProfiles_arr, ofC_Total_ComptonProfiles_arr, ofC_Total_ComptonProfiles_arr2, ofC_Partial_ComptonProfiles_arr, ofC_Partial_ComptonProfiles_arr2, ofC_Auger_Yields_arr, ofC_Auger_Rates_arr, Hdr.ZMAX, Hdr.SHELLNUM, Hdr.SHELLNUM_K, Hdr.SHELLNUM_A, Hdr.TRANSNUM, Hdr.LINENUM, Hdr.AUGERNUM,
+      Hdr.RE2, Hdr.MEC2, Hdr.AVOGNUM, Hdr.KEV2ANGST, Hdr.R_E, inI32, INT_MIN, INT_MAX] at *))
+
 section accessors
 variable (T : Tables ℝ) (Z m : Int) (hZ : inI32 Z) (hm : inI32 m) (s : Slot) (hs : s.isFull = false)
 include hZ hs
@@ -122,6 +129,178 @@ theorem java_eq_c_ComptonProfile (hN : inI32 (T.Npz_ComptonProfiles Z.toNat)) : 
   (jeq_start JGen.ComptonProfile Gen.ComptonProfile; jeq_auto)
 
 end spline
+
+section composite
+variable (T : Tables ℝ) (Z : Int) (hZ : inI32 Z) (E : ℝ) (s : Slot) (hs : s.isFull = false)
+include hZ
+
+theorem java_pos_CS_Photo : JPos (JGen.CS_Photo (JTables.ofC T) Z E) := by
+  jeq_startJ JGen.CS_Photo JGen.CS_Factory
+  rcases hj : JGen.splint (JTables.ofC T) (jvec (T.NE_Photo Z.toNat) (T.E_Photo_arr Z.toNat)) (jvec (T.NE_Photo Z.toNat) (T.CS_Photo_arr Z.toNat))
+    (jvec (T.NE_Photo Z.toNat) (T.CS_Photo_arr2 Z.toNat)) (T.NE_Photo Z.toNat) (Real.log (E * 1000.0)) with e | y <;> jpos_auto
+
+theorem java_pos_CS_Rayl : JPos (JGen.CS_Rayl (JTables.ofC T) Z E) := by
+  jeq_startJ JGen.CS_Rayl JGen.CS_Factory
+  rcases hj : JGen.splint (JTables.ofC T) (jvec (T.NE_Rayl Z.toNat) (T.E_Rayl_arr Z.toNat)) (jvec (T.NE_Rayl Z.toNat) (T.CS_Rayl_arr Z.toNat))
+    (jvec (T.NE_Rayl Z.toNat) (T.CS_Rayl_arr2 Z.toNat)) (T.NE_Rayl Z.toNat) (Real.log (E * 1000.0)) with e | y <;> jpos_auto
+
+theorem java_pos_CS_Compt : JPos (JGen.CS_Compt (JTables.ofC T) Z E) := by
+  jeq_startJ JGen.CS_Compt JGen.CS_Factory
+  rcases hj : JGen.splint (JTables.ofC T) (jvec (T.NE_Compt Z.toNat) (T.E_Compt_arr Z.toNat)) (jvec (T.NE_Compt Z.toNat) (T.CS_Compt_arr Z.toNat))
+    (jvec (T.NE_Compt Z.toNat) (T.CS_Compt_arr2 Z.toNat)) (T.NE_Compt Z.toNat) (Real.log (E * 1000.0)) with e | y <;> jpos_auto
+
+include hs
+theorem java_eq_c_CS_Total (hN1 : inI32 (T.NE_Photo Z.toNat)) (hN2 : inI32 (T.NE_Rayl Z.toNat)) (hN3 : inI32 (T.NE_Compt Z.toNat)) :
+    JRel (JGen.CS_Total (JTables.ofC T) Z E) (Gen.CS_Total T Z E s) s := by
+  jeq_start JGen.CS_Total Gen.CS_Total
+  jeq_use_pos (java_eq_c_CS_Photo T Z hZ E s hs hN1), (java_pos_CS_Photo T Z hZ E)
+  jeq_use_pos (java_eq_c_CS_Rayl T Z hZ E s hs hN2), (java_pos_CS_Rayl T Z hZ E)
+  jeq_use_pos (java_eq_c_CS_Compt T Z hZ E s hs hN3), (java_pos_CS_Compt T Z hZ E)
+  jeq_auto
+end composite
+
+section diff
+variable (T : Tables ℝ) (Z : Int) (hZ : inI32 Z) (E theta phi : ℝ) (s : Slot) (hs : s.isFull = false)
+include hZ hs
+
+theorem java_eq_c_DCS_Rayl (hN : inI32 (T.Nq_Rayl Z.toNat))
+    (haw : ∀ v, JGen.FF_Rayl (JTables.ofC T) Z (E / 12.3984193 * XNum.sin (theta / 2.0)) = .ok v → 0 ≤ T.AtomicWeight_arr Z.toNat) :
+    JRel (JGen.DCS_Rayl (JTables.ofC T) Z E theta) (Gen.DCS_Rayl T Z E theta s) s := by
+  jeq_start JGen.DCS_Rayl Gen.DCS_Rayl JGen.MomentTransf Gen.MomentTransf JGen.DCS_Thoms Gen.DCS_Thoms Gen.AtomicWeight
+  by_cases hz : Z < 1 ∨ Z > 120
+  · jeq_auto
+  by_cases hE : E ≤ 0
+  · jeq_auto
+  jeq_simp
+  jeq_use (java_eq_c_FF_Rayl T Z hZ (E / 12.3984193 * XNum.sin (theta / 2.0)) Slot.empty rfl hN)
+  have h0 := haw _ (by assumption)
+  jeq_auto
+
+theorem java_eq_c_DCS_Compt (hN : inI32 (T.Nq_Compt Z.toNat))
+    (haw : ∀ v, JGen.SF_Compt (JTables.ofC T) Z (E / 12.3984193 * XNum.sin (theta / 2.0)) = .ok v → 0 ≤ T.AtomicWeight_arr Z.toNat) :
+    JRel (JGen.DCS_Compt (JTables.ofC T) Z E theta) (Gen.DCS_Compt T Z E theta s) s := by
+  jeq_start JGen.DCS_Compt Gen.DCS_Compt JGen.MomentTransf Gen.MomentTransf JGen.DCS_KN Gen.DCS_KN Gen.AtomicWeight
+  by_cases hz : Z < 1 ∨ Z > 120
+  · jeq_auto
+  by_cases hE : E ≤ 0
+  · jeq_auto
+  jeq_simp
+  jeq_use (java_eq_c_SF_Compt T Z hZ (E / 12.3984193 * XNum.sin (theta / 2.0)) Slot.empty rfl hN)
+  have h0 := haw _ (by assumption)
+  jeq_auto
+
+theorem java_eq_c_DCSP_Rayl (hN : inI32 (T.Nq_Rayl Z.toNat))
+    (haw : ∀ v, JGen.FF_Rayl (JTables.ofC T) Z (E / 12.3984193 * XNum.sin (theta / 2.0)) = .ok v → 0 < T.AtomicWeight_arr Z.toNat) :
+    JRel (JGen.DCSP_Rayl (JTables.ofC T) Z E theta phi) (Gen.DCSP_Rayl T Z E theta phi s) s := by
+  jeq_start JGen.DCSP_Rayl Gen.DCSP_Rayl JGen.MomentTransf Gen.MomentTransf JGen.DCSP_Thoms Gen.DCSP_Thoms JGen.AtomicWeight Gen.AtomicWeight
+  by_cases hz : Z < 1 ∨ Z > 120
+  · jeq_auto
+  by_cases hE : E ≤ 0
+  · jeq_auto
+  jeq_simp
+  jeq_use (java_eq_c_FF_Rayl T Z hZ (E / 12.3984193 * XNum.sin (theta / 2.0)) Slot.empty rfl hN)
+  have h0 := haw _ (by assumption)
+  jeq_auto
+
+theorem java_eq_c_DCSP_Compt (hN : inI32 (T.Nq_Compt Z.toNat))
+    (haw : ∀ v, JGen.SF_Compt (JTables.ofC T) Z (E / 12.3984193 * XNum.sin (theta / 2.0)) = .ok v → 0 < T.AtomicWeight_arr Z.toNat) :
+    JRel (JGen.DCSP_Compt (JTables.ofC T) Z E theta phi) (Gen.DCSP_Compt T Z E theta phi s) s := by
+  jeq_start JGen.DCSP_Compt Gen.DCSP_Compt JGen.MomentTransf Gen.MomentTransf JGen.DCSP_KN Gen.DCSP_KN JGen.AtomicWeight Gen.AtomicWeight
+  by_cases hz : Z < 1 ∨ Z > 120
+  · jeq_auto
+  by_cases hE : E ≤ 0
+  · jeq_auto
+  jeq_simp
+  jeq_use (java_eq_c_SF_Compt T Z hZ (E / 12.3984193 * XNum.sin (theta / 2.0)) Slot.empty rfl hN)
+  have h0 := haw _ (by assumption)
+  jeq_auto
+end diff
+
+section barns
+variable (T : Tables ℝ) (Z : Int) (hZ : inI32 Z) (E theta phi : ℝ) (s : Slot) (hs : s.isFull = false)
+include hZ hs
+
+theorem java_eq_c_CSb_Photo (hN : inI32 (T.NE_Photo Z.toNat))
+    (haw : ∀ v, JGen.CS_Photo (JTables.ofC T) Z E = .ok v → 0 < T.AtomicWeight_arr Z.toNat) :
+    JRel (JGen.CSb_Photo (JTables.ofC T) Z E) (Gen.CSb_Photo T Z E s) s := by
+  by_cases hz : Z < 1 ∨ Z > 120
+  · jeq_start JGen.CSb_Photo Gen.CSb_Photo JGen.CS_Photo Gen.CS_Photo JGen.CS_Factory; jeq_auto
+  · jeq_start JGen.CSb_Photo Gen.CSb_Photo Gen.AtomicWeight
+    jeq_use (java_eq_c_CS_Photo T Z hZ E s hs hN)
+    have h0 := haw _ (by assumption)
+    jeq_auto
+
+theorem java_eq_c_CSb_Rayl (hN : inI32 (T.NE_Rayl Z.toNat))
+    (haw : ∀ v, JGen.CS_Rayl (JTables.ofC T) Z E = .ok v → 0 < T.AtomicWeight_arr Z.toNat) :
+    JRel (JGen.CSb_Rayl (JTables.ofC T) Z E) (Gen.CSb_Rayl T Z E s) s := by
+  by_cases hz : Z < 1 ∨ Z > 120
+  · jeq_start JGen.CSb_Rayl Gen.CSb_Rayl JGen.CS_Rayl Gen.CS_Rayl JGen.CS_Factory; jeq_auto
+  · jeq_start JGen.CSb_Rayl Gen.CSb_Rayl Gen.AtomicWeight
+    jeq_use (java_eq_c_CS_Rayl T Z hZ E s hs hN)
+    have h0 := haw _ (by assumption)
+    jeq_auto
+
+theorem java_eq_c_CSb_Compt (hN : inI32 (T.NE_Compt Z.toNat))
+    (haw : ∀ v, JGen.CS_Compt (JTables.ofC T) Z E = .ok v → 0 < T.AtomicWeight_arr Z.toNat) :
+    JRel (JGen.CSb_Compt (JTables.ofC T) Z E) (Gen.CSb_Compt T Z E s) s := by
+  by_cases hz : Z < 1 ∨ Z > 120
+  · jeq_start JGen.CSb_Compt Gen.CSb_Compt JGen.CS_Compt Gen.CS_Compt JGen.CS_Factory; jeq_auto
+  · jeq_start JGen.CSb_Compt Gen.CSb_Compt Gen.AtomicWeight
+    jeq_use (java_eq_c_CS_Compt T Z hZ E s hs hN)
+    have h0 := haw _ (by assumption)
+    jeq_auto
+
+theorem java_eq_c_CSb_Total (hN1 : inI32 (T.NE_Photo Z.toNat)) (hN2 : inI32 (T.NE_Rayl Z.toNat)) (hN3 : inI32 (T.NE_Compt Z.toNat))
+    (haw : ∀ v, JGen.CS_Total (JTables.ofC T) Z E = .ok v → 0 < T.AtomicWeight_arr Z.toNat) :
+    JRel (JGen.CSb_Total (JTables.ofC T) Z E) (Gen.CSb_Total T Z E s) s := by
+  by_cases hz : Z < 1 ∨ Z > 120
+  · jeq_start JGen.CSb_Total Gen.CSb_Total JGen.CS_Total Gen.CS_Total; jeq_auto
+  · jeq_start JGen.CSb_Total Gen.CSb_Total Gen.AtomicWeight
+    jeq_use (java_eq_c_CS_Total T Z hZ E s hs hN1 hN2 hN3)
+    have h0 := haw _ (by assumption)
+    jeq_auto
+
+theorem java_eq_c_DCSb_Rayl (hN : inI32 (T.Nq_Rayl Z.toNat)) (haw0 : ∀ v, JGen.FF_Rayl (JTables.ofC T) Z (E / 12.3984193 * XNum.sin (theta / 2.0)) = .ok v → 0 ≤ T.AtomicWeight_arr Z.toNat)
+    (haw : ∀ v, JGen.DCS_Rayl (JTables.ofC T) Z E theta = .ok v → 0 < T.AtomicWeight_arr Z.toNat) :
+    JRel (JGen.DCSb_Rayl (JTables.ofC T) Z E theta) (Gen.DCSb_Rayl T Z E theta s) s := by
+  by_cases hz : Z < 1 ∨ Z > 120
+  · jeq_start JGen.DCSb_Rayl Gen.DCSb_Rayl JGen.DCS_Rayl Gen.DCS_Rayl; jeq_auto
+  · jeq_start JGen.DCSb_Rayl Gen.DCSb_Rayl Gen.AtomicWeight
+    jeq_use (java_eq_c_DCS_Rayl T Z hZ E theta s hs hN haw0)
+    have h0 := haw _ (by assumption)
+    jeq_auto
+
+theorem java_eq_c_DCSb_Compt (hN : inI32 (T.Nq_Compt Z.toNat)) (haw0 : ∀ v, JGen.SF_Compt (JTables.ofC T) Z (E / 12.3984193 * XNum.sin (theta / 2.0)) = .ok v → 0 ≤ T.AtomicWeight_arr Z.toNat)
+    (haw : ∀ v, JGen.DCS_Compt (JTables.ofC T) Z E theta = .ok v → 0 < T.AtomicWeight_arr Z.toNat) :
+    JRel (JGen.DCSb_Compt (JTables.ofC T) Z E theta) (Gen.DCSb_Compt T Z E theta s) s := by
+  by_cases hz : Z < 1 ∨ Z > 120
+  · jeq_start JGen.DCSb_Compt Gen.DCSb_Compt JGen.DCS_Compt Gen.DCS_Compt; jeq_auto
+  · jeq_start JGen.DCSb_Compt Gen.DCSb_Compt Gen.AtomicWeight
+    jeq_use (java_eq_c_DCS_Compt T Z hZ E theta s hs hN haw0)
+    have h0 := haw _ (by assumption)
+    jeq_auto
+
+theorem java_eq_c_DCSPb_Rayl (hN : inI32 (T.Nq_Rayl Z.toNat)) (haw0 : ∀ v, JGen.FF_Rayl (JTables.ofC T) Z (E / 12.3984193 * XNum.sin (theta / 2.0)) = .ok v → 0 < T.AtomicWeight_arr Z.toNat)
+    (haw : ∀ v, JGen.DCSP_Rayl (JTables.ofC T) Z E theta phi = .ok v → 0 < T.AtomicWeight_arr Z.toNat) :
+    JRel (JGen.DCSPb_Rayl (JTables.ofC T) Z E theta phi) (Gen.DCSPb_Rayl T Z E theta phi s) s := by
+  by_cases hz : Z < 1 ∨ Z > 120
+  · jeq_start JGen.DCSPb_Rayl Gen.DCSPb_Rayl JGen.DCSP_Rayl Gen.DCSP_Rayl; jeq_auto
+  · jeq_start JGen.DCSPb_Rayl Gen.DCSPb_Rayl Gen.AtomicWeight
+    jeq_use (java_eq_c_DCSP_Rayl T Z hZ E theta phi s hs hN haw0)
+    have h0 := haw _ (by assumption)
+    jeq_auto
+
+theorem java_eq_c_DCSPb_Compt (hN : inI32 (T.Nq_Compt Z.toNat)) (haw0 : ∀ v, JGen.SF_Compt (JTables.ofC T) Z (E / 12.3984193 * XNum.sin (theta / 2.0)) = .ok v → 0 < T.AtomicWeight_arr Z.toNat)
+    (haw : ∀ v, JGen.DCSP_Compt (JTables.ofC T) Z E theta phi = .ok v → 0 < T.AtomicWeight_arr Z.toNat) :
+    JRel (JGen.DCSPb_Compt (JTables.ofC T) Z E theta phi) (Gen.DCSPb_Compt T Z E theta phi s) s := by
+  by_cases hz : Z < 1 ∨ Z > 120
+  · jeq_start JGen.DCSPb_Compt Gen.DCSPb_Compt JGen.DCSP_Compt Gen.DCSP_Compt; jeq_auto
+  · jeq_start JGen.DCSPb_Compt Gen.DCSPb_Compt Gen.AtomicWeight
+    jeq_use (java_eq_c_DCSP_Compt T Z hZ E theta phi s hs hN haw0)
+    have h0 := haw _ (by assumption)
+    jeq_auto
+
+end barns
 
 end C19
 end Xrl
